@@ -133,6 +133,16 @@ func (selAuth) Authenticate(id string, cred interface{}) error {
 	return fmt.Errorf("rejected")
 }
 
+// password authenticator: user "good" with password "pw", nobody else
+type pwAuth struct{}
+
+func (pwAuth) Authenticate(id string, cred interface{}) error {
+	if s, ok := cred.(string); ok && id == "good" && s == "pw" {
+		return nil
+	}
+	return fmt.Errorf("rejected")
+}
+
 var selAuthOnce sync.Once
 
 // payload tags: "" empty, "B..." big (about 40 % of a 16 KiB ring: consecutive packets wrap it),
@@ -518,7 +528,7 @@ func newBrokerRun(auth string, maxqos int) *brokerRun {
 	topics.Register(name, tp)
 	sp := sessions.NewMemProvider()
 	sessions.Register(name, sp)
-	selAuthOnce.Do(func() { mqttauth.Register("verifSelective", selAuth{}) })
+	selAuthOnce.Do(func() { mqttauth.Register("verifSelective", selAuth{}); mqttauth.Register("verifPassword", pwAuth{}) })
 	topics.MaxQosAllowed = byte(maxqos)
 	if auth == "" {
 		auth = "mockSuccess"
@@ -634,6 +644,12 @@ func refusedFirstPacket(kind string) []byte {
 		return ok("MQTT", 4, 0, "")
 	case "auth":
 		return ok("MQTT", 4, 2, "rk")
+	case "auth-badpw": // the user name of accepted logins with a wrong password, without one, and with the client id of accepted connections
+		return pkt(0x10, append(append(append(append(lp([]byte("MQTT")), 4, 0xc2, 0, 60), lp([]byte("rk"))...), lp([]byte("good"))...), lp([]byte("no"))...))
+	case "auth-nopw":
+		return pkt(0x10, append(append(append(lp([]byte("MQTT")), 4, 0x82, 0, 60), lp([]byte("rk"))...), lp([]byte("good"))...))
+	case "auth-k1-badpw":
+		return pkt(0x10, append(append(append(append(lp([]byte("MQTT")), 4, 0xc2, 0, 60), lp([]byte("k1"))...), lp([]byte("good"))...), lp([]byte("pW"))...))
 	case "auth-k1-clean": // rejected login that names the client id of somebody else's session
 		return pkt(0x10, append(append(append(lp([]byte("MQTT")), 4, 0x82, 0, 60), lp([]byte("k1"))...), lp([]byte("evil"))...))
 	case "abort-k1-keep": // a valid resume attempt for k1 that the client abandons before reading the CONNACK
@@ -1034,6 +1050,12 @@ func runBehaviour(steps []bStep, auth string, maxqos int, res *Result) (result *
 					atomic.StoreInt32(&m.srv.join, 1)
 				}
 				m.c.Write([]byte{0xe0, 0})
+				m.c.Close()
+			case "pings-disconnect-eof":
+				// a backlog of requests that need an answer, the DISCONNECT and the end of the stream: the broker's receiver
+				// sees the end (and closes the outgoing buffer) while the processor is still busy with the backlog
+				b := bytes.Repeat([]byte{0xc0, 0}, 6000)
+				m.c.Write(append(b, 0xe0, 0))
 				m.c.Close()
 			case "bad":
 				m.c.Write([]byte{0x30, 0x01, 0x00}) // PUBLISH too short for its topic: protocol error
